@@ -126,12 +126,14 @@ func c05AfterRefusal(r *Run, ts []pduType, idx int) {
 		}
 		cs := w.Go(g, specs...)
 		// the goroutine runs its calls one after the other: refused ones return at once, a good one sits in its Write
+		served := map[int]bool{}
 		for progress := true; progress && w.Stuck == ""; {
 			progress = false
 			for i, c := range cs {
-				if ps[i].refused || w.Returned(c) || !w.Written(c) {
+				if ps[i].refused || served[c.ID] || w.Returned(c) || !w.Written(c) {
 					continue
 				}
+				served[c.ID] = true // answered and released once, whatever becomes of it
 				f := frameOf(respFor(c.P, c.Seq))
 				if rng.Bool() {
 					w.Peer([][]byte{f}, nil)
